@@ -250,7 +250,9 @@ def netlist_cases(draw, max_nodes):
     def fresh(base):
         n = base
         k = 0
-        while n in used:
+        # generated names must not collide with the default names of unnamed signals / instances / wrappers
+        # (i<k>, n<k>, u<k>, grp<k>): two ports of one wrapper with the same name would be a user error
+        while n in used or re.match(r'^(i|n|u|grp)\d+$', n):
             k += 1
             n = '{}{}'.format(base, k)
         used.add(n)
